@@ -39,7 +39,7 @@ TIE = {
  "C13": "translator shape-checks every modelled statement, regenerates bin-number function / margin / gEpsilon / saveDepth + bit-exact ids (depth 0..20) + brute-force bincount",
  "C14": "assignment tables and constants of `calc_stats` re-read by ast and compared in Coq with the model's + correspondence (structure bit-exact, statistics exact rationals)",
  "C15": "318 effect skeletons regenerated from the sources (one `frame_ok` lemma each), inventory + C entry-point table + records.cpp store scan (fail closed) + dynamic snapshots compared in Coq",
- "C16": "correspondence only (hand byte-level model; dtype strings, bytes, same-object, second call)",
+ "C16": "Gen.v regenerated (bodies of 10 byte-order functions + keyword defaults, python ast -> Gallina), Tie.v: Gen = model for both endiannesses + correspondence incl. views, nested, recfile to_native",
  "C17": "40 assignments re-emitted from `cgauleg_pywrap.c`/`integrate/util.py` (`gen_X = F.X` by reflexivity), control skeleton compared + bit-exact correspondence + moment certificates",
  "C18": "Gen.v regenerated (34 definitions: formulas, comparison operators, defaults, clamps), tie theorems + correspondence on exact rationals",
  "C19": "formula chains of randsphere/randcap/rotate/interplin regenerated and proved equal to the model, other statements pinned by text + interval certificates + exact-rational verdicts",
